@@ -213,6 +213,98 @@ def gen_argpaths(path=None):
     return 'PlasVerif/Generated/ArgPaths.lean', src, 'exact'
 
 
+# ---- second table: the per-type character categories set for one argument are restored on every return path ----
+
+CAT_FUNCTION = 'readArgumentAndSource'
+
+
+def _restore_loop_var(fn):
+    """name X of the dictionary of saved categories: the function holds exactly one loop
+    `for .. in X.items()` / `list(X.items())` whose body is a single `<...>.catcode(..)` call statement"""
+    found = []
+    for n in ast.walk(fn):
+        if not isinstance(n, ast.For):
+            continue
+        it = n.iter
+        if isinstance(it, ast.Call) and isinstance(it.func, ast.Name) and it.func.id == 'list' and len(it.args) == 1:
+            it = it.args[0]
+        if not (isinstance(it, ast.Call) and isinstance(it.func, ast.Attribute) and it.func.attr == 'items'
+                and isinstance(it.func.value, ast.Name) and not it.args):
+            continue
+        if (len(n.body) == 1 and isinstance(n.body[0], ast.Expr) and isinstance(n.body[0].value, ast.Call)
+                and isinstance(n.body[0].value.func, ast.Attribute) and n.body[0].value.func.attr == 'catcode' and not n.orelse):
+            found.append((n, it.func.value.id))
+    if len(found) != 1:
+        raise Unsupported('%s: expected exactly one restore loop over the saved categories, found %d' % (fn.name, len(found)))
+    return found[0]
+
+
+class _CatBuilder(_Builder):
+    """`X = {}` (the dictionary of saved categories) opens the obligation (`disable`), the restore loop over `X.items()`
+    discharges it (`enable`); the ParameterCommand calls are plain statements here.  Opening at the creation of X, before
+    any category is changed, over-approximates: a return between the creation and the restore loop is reported even when
+    no category happened to be changed on that path."""
+
+    def __init__(self, fn):
+        super().__init__(fn.name)
+        self.loop, self.var = _restore_loop_var(fn)
+        self.opened = 0
+
+    def stmt(self, s, in_loop):
+        if s is self.loop:
+            return ('enable',)
+        if (isinstance(s, ast.Assign) and len(s.targets) == 1 and isinstance(s.targets[0], ast.Name)
+                and s.targets[0].id == self.var):
+            if not (isinstance(s.value, ast.Dict) and not s.value.keys) or in_loop:
+                self.fail(s, 'the dictionary of saved categories is re-assigned')
+            self.opened += 1
+            self.open_line = s.lineno
+            return ('disable',)
+        if _counter_call(s):
+            return ('skip',)
+        return super().stmt(s, in_loop)
+
+
+def cat_skeleton_of_source(text):
+    tree = ast.parse(text)
+    cls = [n for n in tree.body if isinstance(n, ast.ClassDef) and n.name == CLASS]
+    if len(cls) != 1:
+        raise Unsupported('class %s not found exactly once' % CLASS)
+    fns = [n for n in cls[0].body if isinstance(n, ast.FunctionDef) and n.name == CAT_FUNCTION]
+    if len(fns) != 1:
+        raise Unsupported('function %s.%s found %d times' % (CLASS, CAT_FUNCTION, len(fns)))
+    fn = fns[0]
+    b = _CatBuilder(fn)
+    p = b.block(fn.body, False)
+    if b.opened != 1:
+        raise Unsupported('%s: the dictionary of saved categories is created %d times' % (fn.name, b.opened))
+    for n in ast.walk(fn):       # every change of a category happens after the dictionary exists
+        if isinstance(n, ast.Call) and isinstance(n.func, ast.Attribute) and n.func.attr in ('catcode', 'setVerbatimCatcodes') \
+                and n.lineno < b.open_line:
+            raise Unsupported('%s line %d: a category is changed before the saved-categories dictionary exists' % (fn.name, n.lineno))
+    return [(CAT_FUNCTION + 'Cat', p)]
+
+
+def gen_catpaths(path=None):
+    """translator entry for the category-restoration table"""
+    path = path or os.path.join(framework.REPO, REL)
+    with open(path, encoding='utf-8') as f:
+        text = f.read()
+    skels = cat_skeleton_of_source(text)
+    defs = ['def %s : Prog :=\n  %s' % (name, to_lean(p)) for name, p in skels]
+    table = ('def catSkeletons : List (String × Prog) :=\n  [' +
+             ',\n   '.join('(%s, %s)' % (extract.lean_str(name), name) for name, _ in skels) + ']')
+    src = (extract.HEADER % ('%s (AST of TeX.%s)' % (REL, CAT_FUNCTION), 'exact') +
+           'import PlasVerif.Model.EnableBalance\n'
+           'namespace PlasVerif.Generated.CatPaths\n'
+           'open PlasVerif.Model.EnableBalance\n'
+           '/-! control-flow skeleton of TeX.readArgumentAndSource for the per-type character categories: `disable` = the\n'
+           '    dictionary of saved categories is created (categories may be changed from here on), `enable` = the loop that\n'
+           '    restores them; see harness/props/c05_paths.py (_CatBuilder) -/\n\n' +
+           '\n\n'.join(defs) + '\n\n' + table + '\n\nend PlasVerif.Generated.CatPaths\n')
+    return 'PlasVerif/Generated/CatPaths.lean', src, 'exact'
+
+
 # ---- a Python twin of the Lean checker (diagnostics only: names the unbalanced exits; the verdict is Lean's) ----
 
 def outs(p):
